@@ -72,11 +72,31 @@ def main():
             rc, out = sh("go build ./...", wt)
             res["build"] = rc == 0
             rc, out = sh("go test -vet=off -count=1 ./... 2>&1 | grep -E '^(FAIL|---|ok|panic)' | grep -v '^ok' | head -20", wt, 1500)
-            res["suite_failures"] = out.strip()
+            fails = out.strip()
+            import re as _re
+            pk = sorted(set(_re.findall(r"^FAIL\s+(\S+)", fails, _re.M)))
+            still = []
+            for pkg in pk:
+                okp = False
+                for _ in range(3):
+                    rc2, out2 = sh("go test -vet=off -count=1 " + pkg.replace("github.com/logrange/logrange", "."), wt, 900)
+                    if rc2 == 0:
+                        okp = True
+                        break
+                if not okp:
+                    still.append(pkg)
+            res["suite_failures"] = "" if not still else "still failing after 3 solo reruns: " + " ".join(still)
+            if pk and not still:
+                res["suite_flaky_under_load"] = pk
             put_demo()
             rc, out = sh(meta["demo_cmd"], wt, 900)
             res["demo_with_patch"] = "fail" if rc != 0 else "PASSES(unexpected)"
             rm_demo()
+        cpath = os.path.join(seed, "confirm.json")
+        if not a.skip_confirm:
+            json.dump({k: res.get(k) for k in ("demo_without_patch", "patch_applies", "build", "suite_failures", "suite_flaky_under_load", "demo_with_patch")}, open(cpath, "w"))
+        elif os.path.exists(cpath):
+            res.update(json.load(open(cpath)))
         res["checks"] = {}
         for pid in [c for c in a.checks.split(",") if c]:
             t0 = time.time()
